@@ -27,6 +27,9 @@ Relational oracle, straight from the property text:
                   long / lower-case spellings), required tags and further unique tags (edited copies of the 8.2.0 libraries:
                   no bundled schema has a required tag), plus a sample of the general annotations; and the names that
                   get_tags_with_attribute advertises carry the prefix the object has NOW.
+  * temporal    : the prefixed clause for top-level Onset / Offset / Inset / Duration / Delay groups used with a definition
+                  dictionary (definitions declared under the prefix), with and without inner groups / Def values, through
+                  the string entry point and as rows of a table with an onset column
 Annotations are generated per member schema from its own vocabulary (standard tags, library tags, value tags with and
 without units, extensions, long forms, invalid and structural cases, non-ASCII values and extensions).  The groups include
 all-prefixed ones (no unprefixed member) for every offline pairing.  One narrow clause (defect of the unchanged tree, labelled
@@ -123,13 +126,13 @@ def prefix_all(text, p):
     return re.sub(r"[^,()]+", one, text)
 
 
-def observe(text, sch, strip=""):
+def observe(text, sch, strip="", def_dict=None):
     """-> (verdict list, forms) ; verdict = [(code, severity, named tag without the prefix)]"""
     from hed import HedString
     from hed.errors.error_reporter import ErrorHandler
     from hed.errors.error_types import ErrorContext
     try:
-        hs = HedString(text, sch)
+        hs = HedString(text, sch, def_dict) if def_dict is not None else HedString(text, sch)
         eh = ErrorHandler(check_for_warnings=True)
         eh.push_error_context(ErrorContext.HED_STRING, hs)
         issues = hs.validate(allow_placeholders=False, error_handler=eh)
@@ -303,6 +306,158 @@ def run_group(w, gi, n_tags, count=True, only=None):
                         w.case(key=(gi, "bad", bp, A), nontrivial=True)
                     n += 1
                     w.check(has_err, cl, dict(inp, bad_prefix=bp, prefixed_text=BA), bgot, "an error-severity issue")
+    return n
+
+
+# ------------------------------------------------------------------------------------------------------------------
+# temporal groups (Onset / Offset / Inset / Duration / Delay) with definitions, every tag under the prefix
+# ------------------------------------------------------------------------------------------------------------------
+TEMPORAL_GROUPS = [2, 3, 4, 6, 8, 9, 15, 17, 22, 23, 24]       # indexes into GROUPS; quick: the first five
+TEMPORAL_TAGS = ["Onset", "Offset", "Inset", "Duration/3 s", "Delay/2 s", "offset", "{long:Offset}", "{long:Onset}", "Duration/3 s, Delay/1 s",
+                 "Onset, Delay/2 s", "Offset, Delay/2 s"]
+# how the definition is used inside the group ({A}, {B}, {C}: tags of the member's vocabulary; Abc takes no value, Val takes one)
+TEMPORAL_DEFS = ["", "Def/Abc", "Def/Val/3", "Def/Val", "Def/Abc/3", "Def/Unknown", "(Def-expand/Abc, ({A}))", "(Def-expand/Val/3, (Label/3, {A}))",
+                 "def/abc", "Def/Abc, Def/Val/3"]
+TEMPORAL_EXTRAS = ["", "({B})", "({B}), ({C})", "{B}", "({B}, ({C}))", "()"]
+TEMPORAL_WRAPS = ["({G})", "({G}), {C}", "(({G}))", "{G}", "({G}), ({G2})", "{C}, (  {G} )"]
+TEMPORAL_DEFINITIONS = ["(Definition/Abc, ({A}))", "(Definition/Val/#, (Label/#, {A}))"]
+TEMPORAL_DEFINITION_VARIANTS = [["(Definition/Abc, ({A}))", "(Definition/Val/#, (Label/#, {A}))"],
+                                ["(Definition/Abc, ({A}, (Onset)))"], ["(Definition/Abc, ({A})), {B}"], ["(Definition/Abc, ({A}))", "(Definition/abc, ({B}))"],
+                                ["(Definition/Val/#, ({A}))"], ["(Definition/Abc/#, (Label/#)), (Definition/Two, (Def/Abc/3))"], ["(Definition/Zork-x, (Zork))"]]
+
+
+def temporal_texts(alone, quick, shift):
+    """annotations: temporal tag(s) x use of a definition x further content of the group x order x surroundings"""
+    def ok(name):
+        try:
+            return alone.get_tag_entry(name) is not None
+        except Exception:  # noqa
+            return False
+    if not all(ok(n) for n in ("Onset", "Offset", "Inset", "Duration", "Delay", "Def", "Def-expand", "Definition", "Label")):
+        return None, None
+    words = [n for n in ("Red", "Blue", "Green", "Square", "Circle") if ok(n)]
+    own = sorted(e.short_tag_name for e in alone.tags.values() if e.has_attribute("inLibrary") and not e.name.endswith("/#")
+                 and e.takes_value_child_entry is None and "/" not in e.short_tag_name)
+    words = (own[:1] + words + own[1:4])[:3]
+    if len(words) < 3:
+        return None, None
+    sub = {"A": words[0], "B": words[1], "C": words[2]}
+    out = []
+    n = 0
+    for ti, T in enumerate(TEMPORAL_TAGS):
+        if T.startswith("{long:"):
+            T = alone.get_tag_entry(T[6:-1]).long_tag_name
+        for di, D in enumerate(TEMPORAL_DEFS):
+            for ei, E in enumerate(TEMPORAL_EXTRAS):
+                for order in range(3):
+                    n += 1
+                    if quick and (n + shift) % 7:
+                        continue
+                    parts = [x for x in ([T, D, E], [D, T, E], [E, D, T])[order] if x]
+                    G = ", ".join(parts)
+                    wrap = TEMPORAL_WRAPS[(ti + di + ei + order) % len(TEMPORAL_WRAPS)]
+                    G2 = ", ".join(x for x in ("Offset" if "nset" in T else "Onset", D) if x)
+                    text = wrap.replace("{G2}", G2).replace("{G}", G)
+                    for k, v in sub.items():
+                        text = text.replace("{%s}" % k, v)
+                    out.append(text)
+    seen, res = set(), []
+    for t in out:
+        if t not in seen:
+            seen.add(t)
+            res.append(t)
+    return res, sub
+
+
+def _definitions(texts, sch):
+    """-> (DefinitionDict or 'EXC ...', [names defined], [codes of its issues])"""
+    from hed.models.definition_dict import DefinitionDict
+    try:
+        dd = DefinitionDict(list(texts), sch)
+        return dd, sorted(dd.defs), [(i["code"], i["severity"]) for i in dd.issues]
+    except Exception as e:  # noqa
+        return "EXC " + repr(e)[:200], None, None
+
+
+def _table_verdict(rows, definitions, sch):
+    """a table with an onset column, one annotation per row, definitions in the sidecar -> [(code, severity, row)]"""
+    import io
+    import json
+    import pandas as pd
+    from hed import Sidecar, TabularInput
+    try:
+        side = Sidecar(io.StringIO(json.dumps({"defs": {"HED": {"d%d" % k: d for k, d in enumerate(definitions)}}})))
+        df = pd.DataFrame({"onset": [str(float(k)) for k in range(len(rows))], "duration": ["n/a"] * len(rows), "HED": rows}, dtype=str)
+        issues = TabularInput(df, sidecar=side, name="t").validate(sch, name="t")
+        return [(i["code"], i["severity"], i.get("ec_row")) for i in issues]
+    except Exception as e:  # noqa
+        return "EXC " + repr(e)[:200]
+
+
+def run_temporal(w, gi, count=True, only=None):
+    spec, members = GROUPS[gi]
+    G = load(spec)
+    n = 0
+    for mi, (ns, alone_spec) in enumerate(members.items()):
+        if not ns:
+            continue
+        alone = load(alone_spec)
+        texts, sub = temporal_texts(alone, w.quick, gi + mi)
+        if texts is None:
+            continue
+
+        def fill(t):
+            for k, v in sub.items():
+                t = t.replace("{%s}" % k, v)
+            return t
+        base = {"temporal": True, "group_index": gi, "group": spec, "namespace": ns, "alone": alone_spec}
+        # definitions declared under the prefix: the same names are defined, with the same complaints
+        for vi, variant in enumerate(TEMPORAL_DEFINITION_VARIANTS):
+            if only is not None and only.get("definitions") != [fill(d) for d in variant]:
+                continue
+            dtexts = [fill(d) for d in variant]
+            ddA, namesA, issA = _definitions(dtexts, alone)
+            ddG, namesG, issG = _definitions([prefix_all(d, ns) for d in dtexts], G)
+            n += 1
+            if count:
+                w.case(key=(gi, ns, "definitions", vi), nontrivial=True, sample={"group": spec, "definitions": dtexts, "names": namesA})
+            inp = dict(base, definitions=dtexts, what="definition dictionary")
+            w.check((namesG, issG) == (namesA, issA) and isinstance(ddG, str) == isinstance(ddA, str), "C13.prefixed.judged_as_alone", inp,
+                    [ddG if isinstance(ddG, str) else namesG, issG], [ddA if isinstance(ddA, str) else namesA, issA])
+        dtexts = [fill(d) for d in TEMPORAL_DEFINITIONS]
+        ddA, namesA, _ = _definitions(dtexts, alone)
+        ddG, namesG, _ = _definitions([prefix_all(d, ns) for d in dtexts], G)
+        if isinstance(ddA, str) or isinstance(ddG, str) or namesA != ["abc", "val"] or namesG != namesA:
+            continue            # (reported by the check above)
+        for A in (texts if only is None else [only["annotation"]] if "annotation" in only else []):
+            PA = prefix_all(A, ns)
+            got, gforms = observe(PA, G, strip=ns, def_dict=ddG)
+            exp, eforms = observe(A, alone, def_dict=ddA)
+            n += 1
+            if count:
+                w.case(key=(gi, ns, "temporal", A), nontrivial=True,
+                       sample={"group": spec, "annotation": PA, "codes": got if isinstance(got, str) else [g[0] for g in got]})
+            inp = dict(base, annotation=A, definitions=dtexts)
+            clause = "C13.prefixed.judged_as_alone"
+            if got != exp and _without_style(got) == _without_style(exp):
+                clause = "C13.prefixed.capitalisation_warning_reads_prefix"
+            w.check(got == exp, clause, inp, got, exp, prefixed_text=PA)
+            if got == exp and not isinstance(got, str):
+                w.check(gforms == eforms, "C13.forms.same_tag_forms_modulo_prefix", inp, gforms, eforms, prefixed_text=PA)
+        # the same through the table entry point: rows of a file with an onset column, definitions in the sidecar
+        step = 6
+        picks = [texts[k:k + step] for k in range(0, len(texts), step)]
+        picks = picks[::9] if w.quick else picks[::2]
+        if only is not None:
+            picks = [only["rows"]] if "rows" in only else []
+        for rows in picks:
+            exp = _table_verdict(rows, dtexts, alone)
+            got = _table_verdict([prefix_all(r, ns) for r in rows], [prefix_all(d, ns) for d in dtexts], G)
+            n += 1
+            if count:
+                w.case(key=(gi, ns, "temporal table", tuple(rows)), nontrivial=True)
+            w.check(got == exp, "C13.prefixed.judged_as_alone", dict(base, rows=rows, definitions=dtexts, what="table with onset column"),
+                    got, exp)
     return n
 
 
@@ -1196,13 +1351,28 @@ def run(w: Workload):
               "member loaded alone; every 5th annotation is also tried under unloaded and non-alphabetic prefixes; plus the "
               "partnered-vocabulary comparison over every standard entry and the refusal table; configuration histories: (pairing, way "
               "the schema object was used before it got / changed / lost its prefix, member namespace, annotation around the unique / "
-              "required tags or general annotation) and (pairing, way, member or group, attribute looked up)")
+              "required tags or general annotation) and (pairing, way, member or group, attribute looked up); temporal: (group, "
+              "prefixed member, temporal tag(s), use of a definition, further content of the group, order, surroundings)")
     n_tags = 25 if w.quick else 120
     gis = QUICK_GROUPS if w.quick else list(range(len(GROUPS)))
     for gi in gis:
         n = guarded(w, "group %s" % (GROUPS[gi][0],), run_group, gi, n_tags)
         w.part("group %s" % GROUPS[gi][0], cases=n, bound="%d sampled standard + %d library tags per member, each in ~5 "
                "spellings, + ~60 composed annotations; bad prefixes on every 5th" % (n_tags, n_tags), exhaustive=False)
+    n_temporal = 0
+    for gi in (TEMPORAL_GROUPS[:5] if w.quick else TEMPORAL_GROUPS):
+        n_temporal += guarded(w, "temporal %s" % (GROUPS[gi][0],), run_temporal, gi) or 0
+    w.part("temporal groups with definitions under a prefix", cases=n_temporal,
+           bound="groups %s, each prefixed member that has the temporal tags: %d spellings / combinations of Onset, Offset, Inset, "
+                 "Duration, Delay (short, long, lower case) x %d uses of a definition (none, Def with / without / with a missing / "
+                 "with a surplus value, unknown, Def-expand, two) x %d further contents of the group (none, one / two inner groups, a "
+                 "tag, nested, empty) x 3 orders, in 6 surroundings (top level, nested, bare, beside a second temporal group)%s; "
+                 "definition dictionary built from definitions declared under the prefix (+ %d definition lists incl. faulty ones: "
+                 "same names, same complaints); every annotation through the string entry point, chunks of 6 as rows of a table "
+                 "with onset column and the definitions in its sidecar" % (
+                     [GROUPS[g][0] for g in (TEMPORAL_GROUPS[:5] if w.quick else TEMPORAL_GROUPS)], len(TEMPORAL_TAGS),
+                     len(TEMPORAL_DEFS), len(TEMPORAL_EXTRAS), " (quick: every 7th combination)" if w.quick else "",
+                     len(TEMPORAL_DEFINITION_VARIANTS)), exhaustive=False)
     n_hist = 3 if w.quick else 12
     for gi in (QUICK_HISTORY if w.quick else list(range(len(GROUPS)))):
         n = guarded(w, "history %s" % (GROUPS[gi][0],), run_history, gi, n_hist)
@@ -1279,7 +1449,8 @@ def run(w: Workload):
         "DESIGN.md section D); skipped this run: %s" % dict(OBSERVED),
         "annotations mixing tags of several namespaces in one string (the property only speaks of all-p and all-unprefixed; "
         "mixed annotations are used in the history part only, where the oracle is the freshly parsed string)",
-        "definitions/def dictionaries across namespaces, sidecar/table entry points with schema groups",
+        "definitions used across namespaces (a definition declared under one prefix and used under another); sidecar / table "
+        "entry points with schema groups beyond the temporal-group tables",
         "configuration histories: required tags exist in no bundled schema and are exercised on edited copies of testlib 2.0.0 / 3.0.0 "
         "only, and only for the library member (a group advertises the required tags of all members, so the standard member of "
         "such a group is not compared); pairings that straddle generation 8.3.0; mediawiki / tsv unmerged files; a second "
@@ -1309,6 +1480,8 @@ def replay(w: Workload, case: dict):
             run_config_history(w, inp["config_pairing"], 3, folder, count=False, only=inp)
         finally:
             shutil.rmtree(folder, ignore_errors=True)
+    elif inp.get("temporal"):
+        run_temporal(w, inp["group_index"], count=False, only=inp)
     elif inp.get("history"):
         run_history(w, inp["group_index"], 0, count=False, only=inp)
     elif "group_index" in inp:
